@@ -43,7 +43,7 @@ type Op struct {
 type Weights struct {
 	Next, Extend, Lookup, MarkUsed, Lock, Unlock, UnlockWrong, ChangePriv, ChangePub,
 	NewAccount, Rename, ImportPriv, ImportPub, ImportScript, ImportWScript, ImportTScript, ImportXPub,
-	Restart, DerivePath, Invalidate, SyncedTo, NewScope, Convert, SyncedToGap int
+	Restart, DerivePath, Invalidate, SyncedTo, NewScope, Convert, SyncedToGap, Neuter int
 }
 
 var DefaultWeights = Weights{Next: 18, Extend: 6, Lookup: 8, MarkUsed: 5, Lock: 5, Unlock: 7, UnlockWrong: 3, ChangePriv: 3, ChangePub: 2,
@@ -73,7 +73,7 @@ func (w *World) Gen(wt Weights) *Op {
 		{wt.NewAccount, w.opNewAccount}, {wt.Rename, w.opRename}, {wt.ImportPriv, w.opImportPriv}, {wt.ImportPub, w.opImportPub},
 		{wt.ImportScript, func() *Op { return w.opImportScript("script") }}, {wt.ImportWScript, func() *Op { return w.opImportScript("wscript") }},
 		{wt.ImportTScript, func() *Op { return w.opImportScript("tscript") }}, {wt.ImportXPub, w.opImportXPub},
-		{wt.Restart, w.opRestart}, {wt.DerivePath, w.opDerivePath}, {wt.Invalidate, w.opInvalidate}, {wt.SyncedTo, w.opSyncedTo}, {wt.NewScope, w.opNewScope}, {wt.Convert, w.opConvert}, {wt.SyncedToGap, w.opSyncedToGap},
+		{wt.Restart, w.opRestart}, {wt.DerivePath, w.opDerivePath}, {wt.Invalidate, w.opInvalidate}, {wt.SyncedTo, w.opSyncedTo}, {wt.NewScope, w.opNewScope}, {wt.Convert, w.opConvert}, {wt.SyncedToGap, w.opSyncedToGap}, {wt.Neuter, w.opNeuter},
 	}
 	tot := 0
 	for _, e := range es {
@@ -674,7 +674,7 @@ func (w *World) opSyncedTo() *Op {
 func (w *World) opNewScope() *Op {
 	// a watch-only manager creates scopes without a default account; the
 	// harness does not model account-less scopes
-	if len(w.Scopes) >= 6 || w.WatchOnly {
+	if len(w.Scopes) >= 6 || w.WatchOnly || w.Neutered {
 		return nil
 	}
 	s := waddrmgr.KeyScope{Purpose: uint32(1000 + w.R.Intn(1000)), Coin: uint32(w.R.Intn(3))}
@@ -702,6 +702,18 @@ func (w *World) opNewScope() *Op {
 		return err
 	}
 	op.Post = func() { w.registerScope(s, schema) }
+	return op
+}
+
+// opNeuter deletes the encrypted master HD root key (no further scopes can be
+// created afterwards); everything else keeps working.
+func (w *World) opNeuter() *Op {
+	if w.WatchOnly || w.Neutered {
+		return nil
+	}
+	op := &Op{Kind: "neuter", Mutates: true, Name: "neuter root key"}
+	op.Run = func(ns walletdb.ReadWriteBucket) error { return w.M.NeuterRootKey(ns) }
+	op.Post = func() { w.Neutered = true }
 	return op
 }
 
